@@ -84,7 +84,7 @@ func countReaches(v ssa.Value, depth int, seen map[ssa.Value]bool) bool {
 				}
 			}
 		case *ssa.BinOp:
-			if x.Op == token.ADD && countReaches(x, depth+1, seen) {
+			if (x.Op == token.ADD || x.Op == token.MUL) && countReaches(x, depth+1, seen) {
 				return true
 			}
 		case *ssa.Convert:
